@@ -435,6 +435,16 @@ def legal_order(order):
     return ok
 
 
+def noncanon(order):
+    """A legal order far from the canonical one: run parameters first, initial conditions and generators before
+    the mesh (what a file written by hand or by another tool looks like)."""
+    front = [x for x in ('SIMUL', 'PARAM', 'MULTI', 'TIMES', 'START') if x in order]
+    early = [x for x in ('INDOM', 'INCON', 'GENER', 'MESHM') if x in order]
+    rest = [x for x in order if x not in front and x not in early]
+    i = rest.index('ELEME') if 'ELEME' in rest else len(rest)
+    return front + rest[:i] + early + rest[i:]
+
+
 def apply_dev(M, order, dev):
     kind = dev[0]
     if kind == 'drop':
@@ -488,6 +498,18 @@ def apply_dev(M, order, dev):
         return _apply_none(M, order, dev[1], dev[2])
     if kind == 'trail':
         return _apply_trail(M, order, dev[1])
+    if kind == 'perm':
+        new = noncanon(order)
+        return (M, new) if (new != order and legal_order(new)) else None
+    if kind == 'late':
+        # the section has its data but is not in the object's section list: the library inserts it when the
+        # object is written (handled in the chain); 'P': into the legal non-canonical order
+        if dev[1] not in order:
+            return None
+        if len(dev) > 2:
+            new = noncanon(order)
+            return (M, new) if legal_order(new) else None
+        return M, order
     if kind == 'rzdrop':
         if not M.get('MESHM') or M['MESHM'][0][0] != 'rz2d':
             return None
@@ -825,6 +847,10 @@ def single_devs(flavour):
         for j in range(len(order)):
             devs.append(('move', S, j))
     devs.append(('end', 'ENDFI'))
+    devs.append(('perm', 'P'))
+    for S in order:
+        devs.append(('late', S))
+        devs.append(('late', S, 'P'))
     for what in TRAIL:
         devs.append(('trail', what))
     for n in range(0, 13):
@@ -901,8 +927,10 @@ def _slots(dev):
     k = dev[0]
     if k == 'drop':
         return set(['order', dev[1]])
-    if k in ('only', 'move'):
+    if k in ('only', 'move', 'perm'):
         return set(['order'])
+    if k == 'late':
+        return set(['late', 'order'] if len(dev) > 2 else ['late'])
     if k == 'end':
         return set(['end'])
     if k in ('mesubset', 'rzdrop'):
@@ -955,6 +983,22 @@ def all_modes(flavour):
 DEFAULT_MODE = {'mesh': 'in', 'xp': None, 'echo': None}
 
 
+def via_modes(flavour):
+    """Every extra-precision mode requested through the property setters instead of the write() arguments, and
+    through setters after the opposite setting ('toggle'); 'toggle' with extra precision finally off too."""
+    out = []
+    for mode in all_modes(flavour):
+        if mode['xp'] is None and flavour != 'AUTOUGH2':
+            continue
+        for via in ('setter', 'toggle'):
+            if mode['xp'] is None and via == 'setter':
+                continue
+            m = dict(mode)
+            m['via'] = via
+            out.append(m)
+    return out
+
+
 def core_modes(flavour):
     """The modes every single deviation is crossed with in the quick tier: each mesh carrier x extra precision
     {off, everything the carrier allows} x echo."""
@@ -972,8 +1016,13 @@ def enumerate_cases(tier):
         M, order = base_model(flavour)
         singles = single_devs(flavour)
         modes = all_modes(flavour)
-        for mode in modes:
+        for mode in modes + via_modes(flavour):
             cases.append({'base': flavour, 'devs': [], 'mode': mode})
+        route = [dv for dv in singles if dv[0] in ('late', 'perm', 'move', 'drop')]
+        for dv in (singles if tier == 'thorough' else route):
+            for mode in via_modes(flavour):
+                if tier == 'thorough' or mode['xp'] in (None, XP_ALL):
+                    cases.append({'base': flavour, 'devs': [dv], 'mode': mode})
         for d in singles:
             cases.append({'base': flavour, 'devs': [d], 'mode': DEFAULT_MODE})
         for d in singles:
@@ -987,6 +1036,9 @@ def enumerate_cases(tier):
             for a, b in itertools.combinations(reps, 2):
                 if _slots(a) & _slots(b):
                     continue
+                if (a[0] == 'late') != (b[0] == 'late') and (b if a[0] == 'late' else a)[0] not in \
+                        ('move', 'perm', 'drop', 'only'):
+                    continue     # a late section is paired with the deviations of the section order only
                 cases.append({'base': flavour, 'devs': [a, b], 'mode': DEFAULT_MODE})
     return cases
 
@@ -1298,7 +1350,7 @@ def _norm_model(M):
 _timeouts = [0]
 
 
-def _guarded(fn, inp, limit):
+def _guarded(fn, inp, limit, primer=None):
     """Runs one case: whatever happens becomes a violation, never a dead worker.  CaseTimeout is caught only
     outside the timelimit block (the limit re-fires until the exception has left it)."""
     info = {'written': False}
@@ -1310,6 +1362,7 @@ def _guarded(fn, inp, limit):
     try:
         try:
             with core.timelimit(limit):
+                _probe_files()
                 viol, info = fn()
         except core.CaseTimeout:
             _timeouts[0] += 1
@@ -1323,7 +1376,7 @@ def _guarded(fn, inp, limit):
         except Exception as e:
             viol, info = [_exc_sig('case', e, inp)], {'outcome': 'raised', 'written': False}
         with core.timelimit(limit):
-            viol = list(viol) + _state_check(inp)
+            viol = list(viol) + _order_check(primer or inp)
     except core.CaseTimeout:
         # fired between or after the blocks above (late signal): still a timeout of this case
         _timeouts[0] += 1
@@ -1336,7 +1389,7 @@ def run_case(case):
     """-> (violations [(sig, what)], info)."""
     core.load_library()
     if 'history' in case:
-        return _guarded(lambda: _history(case['history']), 'history:' + case['history'][0], CASE_TIMEOUT)
+        return _guarded(lambda: _history(case['history']), 'history:' + case['history'][0], CASE_TIMEOUT, 'history')
     res = model_of_case(case)
     if res is None:
         return [], {'outcome': 'not-applicable', 'written': False}
@@ -1354,7 +1407,9 @@ def run_case(case):
                                     (dv[1] == 'conne' and 'CONNE' not in (mode['xp'] or ()) and
                                      set(dv[2]) & set(['direction', 'distance1', 'distance2', 'area', 'dircos']))):
                 return [], {'outcome': 'not-applicable', 'written': False}
-    return _guarded(lambda: _chain(M, order, mode, flavour, end_kw), flavour[0], CASE_TIMEOUT)
+    late = [dv[1] for dv in case['devs'] if dv[0] == 'late']
+    primer = '%s/%s/%s' % (flavour[0], mode['mesh'], 'std' if not mode['xp'] else ('xp+echo' if mode['echo'] else 'xp'))
+    return _guarded(lambda: _chain(M, order, mode, flavour, end_kw, late), flavour[0], CASE_TIMEOUT, primer)
 
 
 def _exc_sig(step, e, inp):
@@ -1411,6 +1466,7 @@ def _fingerprint(v):
 
 
 def _lib_globals():
+    """Module-level and class-level mutable containers of the library (name, object)."""
     import sys
     seen, out = set(), []
     for m in _LIB_MODULES:
@@ -1418,10 +1474,16 @@ def _lib_globals():
         if mod is None:
             continue
         for name, v in sorted(vars(mod).items()):
-            if name.startswith('__') or not isinstance(v, (dict, list, set)) or id(v) in seen:
+            if name.startswith('__'):
                 continue
-            seen.add(id(v))
-            out.append(('%s.%s' % (m, name), v))
+            if isinstance(v, (dict, list, set)) and id(v) not in seen:
+                seen.add(id(v))
+                out.append(('%s.%s' % (m, name), v))
+            elif isinstance(v, type) and getattr(v, '__module__', None) == m:
+                for an, av in sorted(vars(v).items()):
+                    if not an.startswith('__') and isinstance(av, (dict, list, set)) and id(av) not in seen:
+                        seen.add(id(av))
+                        out.append(('%s.%s.%s' % (m, name, an), av))
     return out
 
 
@@ -1431,50 +1493,150 @@ def _state_snapshot():
     if _state0 is None:
         for m in _LIB_MODULES:
             __import__(m)
-        _state0 = dict((name, (copy.deepcopy(v), _fingerprint(v))) for name, v in _lib_globals())
+        _state0 = _state_copy()
     return _state0
 
 
-def _state_check(inp):
-    """Module-level mutable data changed by a case -> violation, and the data is put back so that the
-    following cases are explored from the documented initial state (the leak is reported, not hidden, and it
-    cannot grow without bound)."""
-    viol = []
-    snap = _state_snapshot()
+def _state_copy():
+    return dict((name, (copy.deepcopy(v), _fingerprint(v))) for name, v in _lib_globals())
+
+
+def _state_install(snap):
+    """Puts the library's module/class-level containers into the recorded state (in place: other modules hold
+    references to the same objects)."""
     for name, v in _lib_globals():
         if name not in snap:
             continue
-        saved, fp = snap[name]
-        if _fingerprint(v) == fp:
-            continue
-        keys = ''
-        if isinstance(v, dict):
-            keys = '/' + '+'.join(sorted(str(k) for k in set(v) | set(saved)
-                                       if _fingerprint(v.get(k)) != _fingerprint(saved.get(k)))[:4])
-        viol.append(('C01|module-state|global-changed-by-case|%s%s' % (name, keys),
-                     'reading / writing / editing data objects changed the module-level %s%s (%s -> %s): state '
-                     'shared between all objects of the process'
-                     % (name, keys, repr(saved)[:120], repr(v)[:120])))
-        fresh = copy.deepcopy(saved)
-        if isinstance(v, dict):
-            v.clear()
-            v.update(fresh)
-        elif isinstance(v, list):
+        fresh = copy.deepcopy(snap[name][0])
+        if isinstance(v, list):
             v[:] = fresh
         else:
             v.clear()
             v.update(fresh)
+
+
+def _state_changed():
+    """Names of the containers that differ from the pristine state.  NOT a verdict (a correct cache is
+    legal): only the trigger for the order-independence comparison below, and the means to restore isolation."""
+    snap = _state_snapshot()
+    out = []
+    for name, v in _lib_globals():
+        if name in snap and _fingerprint(v) != snap[name][1]:
+            out.append(name)
+    return out
+
+
+# ---- order independence: the same reads and writes give the same results whatever ran before them
+
+_probe = {}
+
+
+def _probe_files():
+    """Three small models written once per process from pristine state: standard AUTOUGH2, AUTOUGH2 with the
+    extra-precision companion file, TOUGH2."""
+    if _probe:
+        return _probe
+    _state_install(_state_snapshot())
+    root = os.path.join(core.scratch(), 'c01probe')
+    if os.path.isdir(root):
+        shutil.rmtree(root)
+    specs = [('standard-A', 'AUTOUGH2', {}), ('extra-precision-A', 'AUTOUGH2',
+                                              {'extra_precision': list(XP_ALL), 'echo_extra_precision': False}),
+             ('standard-T', 'TOUGH2', {})]
+    files = {}
+    with _quiet():
+        for name, flavour, kw in specs:
+            os.makedirs(os.path.join(root, name, 'out'))
+            M, order = base_model(flavour)
+            f = os.path.join(root, name, 'model.dat')
+            build(M, order).write(f, **kw)
+            files[name] = f
+    _probe['files'] = files
+    _probe['names'] = [x[0] for x in specs]
+    _probe['pristine'] = dict((n, _probe_observe(n, _state_snapshot())) for n in _probe['names'])
+    _state_install(_state_snapshot())
+    return _probe
+
+
+def _probe_observe(name, state):
+    """Observation of one probe directly after the library state 'state': the object read and the bytes it
+    writes."""
+    import t2data
+    _state_install(state)
+    f = _probe['files'][name]
+    out = os.path.join(os.path.dirname(f), 'out')
+    for x in os.listdir(out):
+        os.remove(os.path.join(out, x))
+    with _quiet():
+        r = t2data.t2data(f)
+        c = t2canon.canon(r)
+        r.write(os.path.join(out, 'model.dat'))
+    files = {}
+    for x in sorted(os.listdir(out)):
+        if os.path.getsize(os.path.join(out, x)) > SIZE_CAP:
+            files[x] = '<%d bytes>' % os.path.getsize(os.path.join(out, x))
+        else:
+            files[x] = _readfile(os.path.join(out, x))
+    return {'canon': c, 'sections': list(r._sections), 'xp': list(r.extra_precision), 'files': files}
+
+
+def _primer_class(primer):
+    if primer.startswith('file:'):
+        return 'real-file'
+    if primer == 'history':
+        return primer
+    fl, mesh, xp = primer.split('/')
+    return fl + '/' + ('extra-precision' if xp != 'std' else 'standard')
+
+
+def _order_check(primer):
+    """Called when a case left module/class-level state of the library changed.  The three probes are observed
+    from that state and compared with their observation from pristine state; only a difference in what is
+    read or written is a violation.  Pristine state is restored afterwards."""
+    viol = []
+    changed = _state_changed()
+    if not changed:
+        return viol
+    dirty = _state_copy()
+    P = _probe_files()
+    for name in P['names']:
+        try:
+            obs = _probe_observe(name, dirty)
+        except (core.CaseTimeout, MemoryError):
+            raise
+        except Exception as e:
+            viol.append(_exc_sig('probe:%s|after=%s' % (name, primer), e, 'order'))
+            continue
+        ref = P['pristine'][name]
+        diffs = t2canon.compare({'canon': ref['canon'], 'sections': ref['sections'], 'xp': ref['xp']},
+                                {'canon': obs['canon'], 'sections': obs['sections'], 'xp': obs['xp']}, limit=12)
+        pc = _primer_class(primer)
+        if diffs:
+            # one signature per probe and kind of preceding case: the first differing section
+            path, a, b = diffs[0]
+            sec = '/'.join(str(x) for x in path[:2] if not isinstance(x, int))
+            viol.append(('C01|order|read-differs|%s|%s|after=%s' % (name, sec, pc),
+                         'reading the %s probe file after a %s case gives a different object than reading it '
+                         'first (state left in %s): %s' % (name, primer, '+'.join(changed)[:120],
+                                                           t2canon.show(diffs, 2))))
+        sub = []
+        _compare_files(ref['files'], obs['files'], False, 'order', 'x', sub)
+        for sig, what in sub[:1]:
+            viol.append(('C01|order|write-differs|%s|%s|after=%s' % (name, sig.split('|')[3], pc),
+                         'the %s probe re-written after a %s case differs from the same re-written first: %s'
+                         % (name, primer, what)))
+    _state_install(_state_snapshot())
     return viol
 
 
-def _chain(M, order, mode, flavour, end_kw):
+def _chain(M, order, mode, flavour, end_kw, late=()):
     import t2data
     viol = []
     info = {'written': False, 'steps': 0}
     inp = flavour[0]
     d = _workdir()
     with _quiet():
-        dat = build(M, order)
+        dat = build(M, [s_ for s_ in order if s_ not in late])
     dat.end_keyword = end_kw
     c0 = t2canon.canon(dat)
     diffs = t2canon.compare(M, c0)
@@ -1486,8 +1648,23 @@ def _chain(M, order, mode, flavour, end_kw):
     expect = expected_for_mode(M, mode)
     rock_names = [r['name'] for r in M.get('ROCKS') or []]
     kw = {}
+    via = mode.get('via') or 'args'
     if mode['xp'] is not None:
-        kw = {'extra_precision': list(mode['xp']), 'echo_extra_precision': bool(mode['echo'])}
+        xpv = True if (via != 'args' and list(mode['xp']) == XP_ALL) else list(mode['xp'])
+        if via == 'args':
+            kw = {'extra_precision': xpv, 'echo_extra_precision': bool(mode['echo'])}
+        else:
+            # the same request through the property setters (they insert / delete sections themselves)
+            if via == 'toggle':
+                dat.extra_precision = ['RPCAP']
+                dat.echo_extra_precision = not mode['echo']
+            dat.extra_precision = xpv
+            dat.echo_extra_precision = bool(mode['echo'])
+    elif via == 'toggle' and flavour == 'AUTOUGH2':
+        dat.extra_precision = True
+        dat.echo_extra_precision = False
+        dat.echo_extra_precision = True
+        dat.extra_precision = False
     main1 = os.path.join(d, 'w1', 'model.dat')
     # ---- w1
     try:
@@ -1508,6 +1685,18 @@ def _chain(M, order, mode, flavour, end_kw):
     info['sections'] = announced
     side = ('ELEME', 'CONNE') if mode['mesh'] != 'in' else ()
     xp = tuple(mode['xp'] or ())
+    if late or via == 'toggle':
+        # where the library puts a section it inserts itself (at write time, or when the echo / extra precision
+        # setters take sections out and put them back) is its own choice: the order it announces is taken; the
+        # sections it was given and did not touch must keep their order, every section with data must be there
+        touched = set(late) | (set(XP_ALL) if via == 'toggle' else set())
+        given = [s_ for s_ in order if s_ not in touched]
+        hidden = (set(mode['xp'] or ()) & set(order)) if not mode['echo'] else set()
+        if [s_ for s_ in announced if s_ in given] != [s_ for s_ in given if s_ in announced] or \
+                (set(announced) | hidden) != set(order):
+            viol.append(('C01|write(obj)|announced-sections|late=%s|%s' % ('+'.join(late) or via, inp),
+                         'object given sections %s and data for %s announces %s' % (given, sorted(touched), announced)))
+        order = [s_ for s_ in announced if s_ in order] + [s_ for s_ in order if s_ not in announced]
     exp_main = [s for s in order if s not in side and not (s in xp and not mode['echo'])]
     ann_main = [s for s in announced if s not in side and not (s in xp and not mode['echo'])]
     if ann_main != exp_main:
@@ -1671,7 +1860,8 @@ def _ref_written(M, order, exp_main, mode, flavour, end_kw, d, inp):
 
 def run_file_case(case):
     core.load_library()
-    return _guarded(lambda: _file_chain(case), 'file:' + os.path.basename(case['file']), FILE_TIMEOUT)
+    return _guarded(lambda: _file_chain(case), 'file:' + os.path.basename(case['file']), FILE_TIMEOUT,
+                    'file:' + os.path.basename(case['file']))
 
 
 def _file_chain(case):
@@ -1866,8 +2056,10 @@ def _history(flavour):
             cls = t2canon.field_class(path)
             if cls in seen:
                 continue
+            if len(seen) >= 2:
+                break       # two field classes per comparison tell the defect; the rest is in the message
             seen.add(cls)
-            viol.append(('C01|history|%s|%s|%s' % (tag, cls, inp), '%s: %s' % (what, t2canon.show([(path, x, y)]))))
+            viol.append(('C01|history|%s|%s|%s' % (tag, cls, inp), '%s: %s' % (what, t2canon.show(diffs, 3))))
 
     with _quiet():
         fresh0 = _projection(t2data.t2data())
@@ -1904,8 +2096,64 @@ def _history(flavour):
                'object was edited in place differs from one created before')
         differ('read-after-edits', ca1, _projection(t2data.t2data(fa)), 'the file read after other objects were '
                'edited in place gives a different object')
+        if flavour == 'AUTOUGH2':
+            _history_xp(M, order, d, fa, ca1, differ, viol, inp, info)
     info['outcome'] = 'ok' if not viol else 'violations'
     return viol, info
+
+
+def _history_xp(M, order, d, fa, ca1, differ, viol, inp, info):
+    """Routes through the extra-precision companion file (inside the caller's quiet block)."""
+    import t2data
+    pristine = _state_snapshot()
+    hx = os.path.join(d, 'hx')
+    for sub in ('xp', 'over', 'a', 'b'):
+        os.makedirs(os.path.join(hx, sub))
+    fx = os.path.join(hx, 'xp', 'model.dat')
+    build(M, order).write(fx, extra_precision=list(XP_ALL), echo_extra_precision=False)
+    # both orders of the two parsers on the same model, each order from pristine library state
+    _state_install(pristine)
+    std1 = _projection(t2data.t2data(fa))
+    xp2 = _projection(t2data.t2data(fx))
+    _state_install(pristine)
+    xp1 = _projection(t2data.t2data(fx))
+    std2 = _projection(t2data.t2data(fa))
+    differ('standard-read-after-extra-precision-read', std1, std2, 'a standard file read after an extra-precision '
+           'model was read differs from the same file read first')
+    differ('extra-precision-read-after-standard-read', xp1, xp2, 'an extra-precision model read after a standard '
+           'file was read differs from the same model read first')
+    differ('extra-precision-read-vs-written', {'canon': M}, {'canon': xp1['canon']},
+           'first read of the base model written with extra precision')
+    # a model written over the files of another model (same name): what is read back is what was written last
+    M2, order2 = apply_dev(M, order, ('len', 'rocks', 2))
+    fo = os.path.join(hx, 'over', 'model.dat')
+    build(M2, order2).write(fo, extra_precision=list(XP_ALL), echo_extra_precision=False)
+    build(M, order).write(fo, extra_precision=False)
+    differ('rewrite-without-extra-precision-over-extra-precision-files', {'canon': M},
+           {'canon': t2canon.canon(t2data.t2data(fo))}, 'a model written without extra precision over the files of '
+           'a model written with it is not what is read back (companion file left behind)')
+    build(M2, order2).write(fo, extra_precision=['ROCKS'], echo_extra_precision=True)
+    differ('rewrite-with-other-extra-precision-sections', {'canon': M2},
+           {'canon': t2canon.canon(t2data.t2data(fo))}, 'a model written with extra precision over files written '
+           'with other settings is not what is read back')
+    # an object that was written and then reads its own file again must not change what other objects write
+    fa_, fb_ = os.path.join(hx, 'a', 'model.dat'), os.path.join(hx, 'b', 'model.dat')
+    a = build(M, order)
+    a.write(fa_, extra_precision=True, echo_extra_precision=False)
+    first = _readfile(os.path.join(hx, 'a', 'model.pdat'))
+    a.read(fa_)
+    build(M, order).write(fb_, extra_precision=True, echo_extra_precision=False)
+    second = _readfile(os.path.join(hx, 'b', 'model.pdat'))
+    info['comparisons'] += 1
+    info['steps_done'].append('companion-file-of-later-object')
+    if first != second:
+        sub = []
+        _compare_files({'pdat': first}, {'pdat': second}, False, 'x', 'x', sub)
+        viol.append(('C01|history|companion-file-of-later-object|%s|%s'
+                     % (sub[0][0].split('|')[3] if sub else 'differs', inp),
+                     'the same model written with extra_precision=True by a new object gives a different companion '
+                     'file after another object was written and re-read its own file: %s'
+                     % (sub[0][1] if sub else '')))
 
 
 def finalize(rec, tier):
